@@ -8,16 +8,46 @@ ENGINES = [
 
 PENDING = "not yet built in this round: model, theorems and correspondence for this property are scheduled (DESIGN.md section 9); the technique applies, the check does not exist yet"
 
+TRUST = "Trusted: Lean kernel; axioms audited per theorem on every run (only propext, Classical.choice, Quot.sound); translator (crate tables -> Gen/Tables.lean); correspondence harness + line protocol + generator; frozen RFC tables assumed to be the RFC's. "
+
 CHECKS = [
     {"property_id": "C13", "engine": "E2 parameters", "design_ref": "DESIGN.md 7/C13",
      "text": "Lean theorems over all representable values (no bound): round trip, exact RFC byte layout (pins endianness and field order), re-serialisation of every parsed buffer, refusal of short buffers; the model is tied to base.rs by a correspondence run over boundary and random values in both directions.",
-     "note": "Trusted: Lean kernel, audited axioms (propext, Classical.choice, Quot.sound), the correspondence harness and its generator. Modelled: Vec/array plumbing.",
+     "note": TRUST + "Modelled: Vec/array plumbing.",
      "technique": "Lean 4 theorems (simp/omega) on a hand-written model + differential correspondence"},
     {"property_id": "C19", "engine": "E2 parameters", "design_ref": "DESIGN.md 7/C19",
      "text": "Lean theorem: the (repaired) constructor accepts exactly the parameter sets within the documented limits, for all F (no bound), T, Z, N, Al, and reports its inputs; witness theorem for the defect of the pinned code (F=2^32+5) and a theorem that the old code had no other defect class. Correspondence in checked and unchecked builds aimed at every limit +-1 and at quotients beyond 2^32.",
-     "note": "Trusted: Lean kernel, audited axioms, correspondence harness. The defect found was repaired by a fix: commit (KNOWN_FINDINGS.txt).",
+     "note": TRUST + "The defect found was repaired by a fix: commit (KNOWN_FINDINGS.txt).",
      "technique": "Lean 4 theorem (case split + omega) + differential correspondence against the model and an exact-arithmetic oracle"},
+    {"property_id": "C10", "engine": "E1 arithmetic", "design_ref": "DESIGN.md 7/C10",
+     "text": "Lean: GF256 built from the crate's regenerated OCT_EXP/OCT_LOG is a Mathlib Field (so all 256^3 triples of associativity/distributivity hold by algebra); every product equals carry-less polynomial multiplication mod 0x11D; division, fma, alpha(i)=2^i; the OCTET_MUL and nibble tables dumped from the compiled crate equal the field products (all 65 536 + 16 384 entries, kernel evaluation). The correspondence is exhaustive (every row of every operation and table), not sampled.",
+     "note": TRUST + "Table facts are decided by kernel evaluation (decide +kernel, no native_decide).",
+     "technique": "Lean 4: kernel-evaluated table facts lifted by algebra to a Field instance + exhaustive correspondence"},
+    {"property_id": "C15", "engine": "E2 parameters", "design_ref": "DESIGN.md 7/C15",
+     "text": "Lean theorems for every K <= 56403 and every internal symbol id (no bound): K' is the least table size >= K; S, W, P1 prime (Nat.Prime), P1 least prime >= P, B >= 1, P >= H >= 2, L < 65536; Rand/Deg/Tuple equal the RFC definitions and lie in range; every enc index < L, the PI skip loop terminates (P1 prime); no panic in a checked build; witness theorems for the two overflow inputs of the pinned code. Tables equal the frozen RFC copy. Correspondence: exhaustive over K, boundary-directed tuples, checked and unchecked builds.",
+     "note": TRUST + "u32 arithmetic modelled with explicit wrap / error.",
+     "technique": "Lean 4 theorems (kernel-checked per-row table facts + number theory via ZMod) + differential correspondence in two build profiles"},
+    {"property_id": "C14", "engine": "E2 parameters", "design_ref": "DESIGN.md 7/C14",
+     "text": "Lean theorem: on the property's whole domain the (repaired) derivation returns the RFC 4.3 values (T largest multiple of Al, Z least block count within KL(Nmax), N least sub-block count that fits), Z is monotone in the memory budget, and the result passes the constructor's limits with Z <= Kt, 1 <= N <= T/Al; witnesses for the two defects of the pinned code. Correspondence aimed at every K' threshold +-1, budgets over the whole u64 range, checked and unchecked builds.",
+     "note": TRUST + "Both defects repaired by fix: commits.",
+     "technique": "Lean 4 theorems (find?/fuel-recursion specs, omega) + differential correspondence against model and exact-arithmetic RFC oracle"},
+    {"property_id": "C05", "engine": "E2 parameters", "design_ref": "DESIGN.md 7/C05",
+     "text": "Lean theorems for all valid (F, T, Z, N, Al) and all data: Partition laws; block ranges contiguous from 0 to Kt*T with KL/KS symbols; only the last block padded, with zeros, by < T bytes; symbols cut sub-block by sub-block as RFC 4.4.1.2 prescribes, each of T bytes; unpack(create(block)) = block; packet numbering. Correspondence: object packets vs the model and vs an independent RFC layout oracle, decoder inversion from shuffled source packets.",
+     "note": TRUST + "Modelled: slice plumbing as list take/drop.",
+     "technique": "Lean 4 theorems (list/index induction) + differential correspondence"},
+    {"property_id": "C11", "engine": "E1 arithmetic", "design_ref": "DESIGN.md 7/C11",
+     "text": "Lean theorems for every kernel (add, mul, fma, binary fma) on every path (portable, SSSE3, AVX2, AVX-512), every length (no bound), every scalar and contents: the head/body/u64-tail/byte-tail skeleton touches every index exactly once and the lane functions (nibble split by mask and 64-bit shift, pshufb, bit unpack) compute the field product, so the kernel equals the element-wise GF(256) operation. Partial: intrinsic semantics are modelled; that the silicon agrees, and all 64 alignments, are observed by the correspondence run on every path of this host (NEON not compiled here).",
+     "note": TRUST + "Modelled not verified: CPU instruction semantics; alignment.",
+     "technique": "Lean 4 theorems on a control-skeleton + lane model of the kernels + swept correspondence (lengths x placements x scalars x paths)"},
+    {"property_id": "C12", "engine": "E1 arithmetic", "design_ref": "DESIGN.md 7/C12",
+     "text": "Lean theorems: every load/store offset the kernel skeletons compute lies inside its buffer for every length (incl. the u32/u64 reinterpretation of packed words), the binary kernels' remainder assert cannot fire, unchecked table indices are in range. Partial: that the Rust pointer expressions are these offsets is validated by running every kernel with operands flush against PROT_NONE guard pages (a fault is reported with its case) and by neighbour-symbol checks on the slab, not proved.",
+     "note": TRUST + "Runtime monitoring supports the index model; it is not part of the proof.",
+     "technique": "Lean 4 theorems on access lists of the kernel skeletons + guard-page monitored correspondence"},
+    {"property_id": "C17", "engine": "E5 cache", "design_ref": "DESIGN.md 7/C17",
+     "text": "Lean theorems over every schedule (any interleaving of the lookup and insert critical sections, any number of threads and requests): the map and the FIFO queue hold the same distinct keys, at most `capacity` plans, every cached plan and every returned plan is the plan of its own K (transparency), eviction is FIFO. Correspondence: real threads parked at the hook and stepped along seeded schedules; snapshots compared after every step; free-running soak.",
+     "note": TRUST + "Modelled: Mutex as atomic critical sections; poisoning ignored.",
+     "technique": "Lean 4 invariant proof by induction over schedules + scheduled real-thread correspondence"},
 ]
 
 NOT_APPLICABLE = [{"property_id": p, "reason": PENDING} for p in
-                  ["C01", "C02", "C03", "C04", "C05", "C06", "C07", "C08", "C09", "C10", "C11", "C12", "C14", "C15", "C16", "C17", "C18"]]
+                  ["C01", "C02", "C03", "C04", "C06", "C07", "C08", "C09", "C16", "C18"]]
